@@ -146,6 +146,7 @@ func (u *Upstream) stateWithoutLock() *UpstreamState {
 func (u *Upstream) Close(ctx context.Context, opts ...UpstreamCloseOption) error {
 	// writers that have passed their state check hand their points over before the state changes,
 	// later ones see the new state: no write is accepted after Close has flushed
+	closeStart := time.Now()
 	beforeStatus := u.state.Swap(streamStatusDraining)
 	if beforeStatus == streamStatusDraining {
 		return errors.Errorf("already draining: %w", errors.ErrStreamClosed)
@@ -167,9 +168,23 @@ func (u *Upstream) Close(ctx context.Context, opts ...UpstreamCloseOption) error
 		u.chunkWrites.Wait()
 		close(written)
 	}()
+	// (bounded like the drain: a write that stalls - the peer has stopped reading - must not hold a Close without
+	// deadline until the keep-alive notices)
+	var limit <-chan time.Time
+	if u.closeTimeout > 0 {
+		// one close timeout for the drain above and this wait together
+		remaining := u.closeTimeout - time.Since(closeStart)
+		if remaining < 0 {
+			remaining = 0
+		}
+		wait := time.NewTimer(remaining)
+		defer wait.Stop()
+		limit = wait.C
+	}
 	select {
 	case <-written:
 	case <-ctx.Done():
+	case <-limit:
 	}
 	return u.closeWithError(ctx, nil, opts...)
 }
